@@ -130,7 +130,9 @@ let () =
        | [] -> print_string "R EMPTY\nS EMPTY\n"
        | head :: rest ->
          let kind = head.[0] in
-         let n = (try int_of_string (String.sub head 1 (String.length head - 1)) with _ -> 1) in
+         let numpart = String.sub head 1 (String.length head - 1) in
+         let numpart = (match String.index_opt numpart '.' with Some i -> String.sub numpart 0 i | None -> numpart) in
+         let n = (try int_of_string numpart with _ -> 1) in
          let n = max 1 (min maxt n) in
          (match kind with
           | 'X' -> run_x n rest
